@@ -187,6 +187,17 @@ CHECKS = {
         "timestamp responses and subjectKeyIdentifier signer infos are not generated.",
    technique="TLA+ shape/operation enumeration by TLC; behaviours replayed on the real pkcs7/pkcs9 code with an independent TLV walker and openssl",
    engine="cms"),
+ "C19": dict(cat="model_checking", design="§4 C19",
+   text="spec/XmlC14n.tla transcribes exclusive XML canonicalisation over 190k small documents and checks the re-serialisation laws with TLC "
+        "(5 negative controls, one of them the behaviour lib/xmldsig had before the fix). Binding: every generated document in three lexical "
+        "styles through the real SerializeCanonical, compared byte for byte with the model's canonical form and with the JDK's exclusive "
+        "canonicaliser (the two oracles are compared with each other first); signed manifests and VSIX package signatures under meaning-"
+        "preserving and meaning-changing rewrites, judged by relic's verifier and the JDK XML-DSig validator; SignatureValue width, "
+        "publicKeyToken and publisher recomputed independently.",
+   note="Small-document scope (three nested elements, three prefixes, two URIs). AppX manifests are not re-serialised (their signature is CMS, "
+        "not XML-DSig). One open finding (VSIX declares inclusive C14N, exclusive is applied).",
+   technique="TLA+ transcription of xml-exc-c14n checked by TLC; generated documents replayed on the real canonicaliser with the JDK as second oracle",
+   engine="xml"),
 }
 
 NOT_YET = {}
